@@ -244,7 +244,7 @@ theorem xrel_step (st : SpecSt) (s : Sys) (o : XOp) (hr : Rel st s) :
       rw [hsv] at hk
       simp only [Option.map_none] at hk
       rw [xstep_restoreCb_nofile s k rd cbs hk]
-      exact ⟨st, by simp [xspecStep], hr⟩
+      exact ⟨st, by simp [xspecStep, hsv], hr⟩
     | some sv =>
       rw [hsv] at hk
       simp only [Option.map_some] at hk
